@@ -196,12 +196,6 @@ def replay_mc(rep, tier, wd):
         st2 = rs[2] if len(rs) > 2 else {"o": "missing"}
         o = st.get("o")
         bad = None
-        if ln["arm"] >= 1 and st.get("o") == "ok" and not (
-                st2.get("o") == "throw" and (st2.get("ev") or {}).get("v") == "arm%d" % ln["arm"]):
-            rep.mismatch("switch-body-raises:%s:%s:arm%d:obs-%s" % (
-                "|".join(R.skeleton(a) for a in ln["arms"]), R.val_kind(ln["v"]), ln["arm"], out_class(st2)),
-                "`%s`: the body of arm %d raises, the switch must raise that error" % (it["steps"][1]["src"], ln["arm"]),
-                {"steps": R.PRELUDE + [it["steps"][1]["src"]], "observed": st2})
         if ln["arm"] == 0:
             if o != "throw":
                 bad = ("exp-raise:obs-" + ("arm-ran" if o == "ok" else out_class(st)), "no arm matches: the switch must raise")
@@ -216,6 +210,12 @@ def replay_mc(rep, tier, wd):
                 bad = ("exp-arm%d:obs-%s" % (ln["arm"], tag), "arm %d must run, %s ran" % (ln["arm"], tag))
             elif [R.canon_to_spec(c) for c in xs[1:]] != want:
                 bad = ("exp-arm%d:obs-wrong-binding" % ln["arm"], "bindings differ")
+        if bad is None and ln["arm"] >= 1 and not (
+                st2.get("o") == "throw" and (st2.get("ev") or {}).get("v") == "arm%d" % ln["arm"]):
+            rep.mismatch("switch-body-raises:%s:%s:arm%d:obs-%s" % (
+                "|".join(R.skeleton(a) for a in ln["arms"]), R.val_kind(ln["v"]), ln["arm"], out_class(st2)),
+                "`%s`: the body of arm %d raises, the switch must raise that error" % (it["steps"][1]["src"], ln["arm"]),
+                {"steps": R.PRELUDE + [it["steps"][1]["src"]], "observed": st2})
         nontrivial.add(("switch",) + tuple(R.skeleton(a) for a in ln["arms"]) + (R.val_kind(ln["v"]),))
         if bad:
             key = "switch:%s:%s:%s" % ("|".join(R.skeleton(a) for a in ln["arms"]), R.val_kind(ln["v"]), bad[0])
